@@ -5,6 +5,11 @@
 //           err
 //           panic <msg>                               (from catch_unwind in main_loop)
 //
+// <hex> may be written in descriptor form (datagrams with tens of thousands of sub-messages, 64 KiB
+// payloads): segments joined by `+`, each segment `<hex>` or `<n>*<hex>` (= n copies of <hex>), e.g.
+// `52545053…+65537*15010100aa+0702000000`.  `expand` below and `bytesOfDesc` in lean/Driver/C20.lean
+// turn it into the same bytes; a word without `+`/`*` is plain hex as before.
+//
 // view variant:  vw <steps> <prehex> <sufhex> <case as above>
 //   the bytes <prehex> ++ <datagram> ++ <sufhex> are ONE allocation (a capture buffer); <steps>
 //   (comma-separated, applied in order, each to the result of the previous one) restrict it to a view:
@@ -166,6 +171,25 @@ fn show(p: &Packet) -> String {
     s
 }
 
+// the datagram word: plain hex, or the descriptor form `<seg>+<seg>+…`, <seg> = <hex> | <n>*<hex>
+fn expand(w: &str) -> Option<Vec<u8>> {
+    let mut v = Vec::new();
+    for seg in w.split('+') {
+        match seg.split_once('*') {
+            Some((n, h)) => {
+                let n: usize = n.parse().ok()?;
+                let u = unhex(h);
+                v.reserve(n.checked_mul(u.len())?);
+                for _ in 0 .. n {
+                    v.extend_from_slice(&u)
+                }
+            },
+            None => v.extend_from_slice(&unhex(seg)),
+        }
+    }
+    Some(v)
+}
+
 // the view selected by <steps> in pre ++ window ++ suf
 fn view_of(steps: &str, pre: &[u8], window: &[u8], suf: &[u8]) -> Result<ParseBuffer, &'static str> {
     let mut all = pre.to_vec();
@@ -207,7 +231,11 @@ pub fn run(line: &str) -> String {
         if w.len() < 6 || (w[4] != "raw" && w[4] != "enc") {
             return "bad-case".to_string()
         }
-        return match view_of(w[1], &unhex(w[2]), &unhex(w[5]), &unhex(w[3])) {
+        let win = match expand(w[5]) {
+            Some(b) => b,
+            None => return "bad-case".to_string(),
+        };
+        return match view_of(w[1], &unhex(w[2]), &win, &unhex(w[3])) {
             Ok(pb) => run_on(pb),
             Err(e) => e.to_string(),
         }
@@ -215,7 +243,10 @@ pub fn run(line: &str) -> String {
     if w.len() < 2 || (w[0] != "raw" && w[0] != "enc") {
         return "bad-case".to_string()
     }
-    run_on(ParseBuffer::new(unhex(w[1])))
+    match expand(w[1]) {
+        Some(b) => run_on(ParseBuffer::new(b)),
+        None => "bad-case".to_string(),
+    }
 }
 
 fn run_on(mut pb: ParseBuffer) -> String {
